@@ -906,6 +906,7 @@ fn main() {
         // dealer_burst <n>: public API, ROUTER bound on tcp, DEALER connects and sends n messages at once (before the
         // connection is established they go to the DEALER's pending queue); counts what the ROUTER receives
         let n: usize = it.next().unwrap().parse().unwrap();
+        let pre = it.next() == Some("pre");       // "pre": all sends happen BEFORE connect() (no peer at all yet)
         let rt = tokio::runtime::Builder::new_multi_thread().worker_threads(2).enable_all().build().unwrap();
         let got = rt.block_on(async move {
           let ctx = rzmq::Context::new().unwrap();
@@ -914,9 +915,14 @@ fn main() {
           router.set_option(rzmq::socket::options::RCVTIMEO, 1500i32).await.unwrap();
           router.bind("tcp://127.0.0.1:0").await.unwrap();
           let ep = String::from_utf8(router.get_option(rzmq::socket::options::LAST_ENDPOINT).await.unwrap()).unwrap();
-          dealer.connect(&ep).await.unwrap();
+          if !pre {
+            dealer.connect(&ep).await.unwrap();
+          }
           for i in 0..n {
             dealer.send(rzmq::Msg::from_vec(format!("m{}", i).into_bytes())).await.unwrap();
+          }
+          if pre {
+            dealer.connect(&ep).await.unwrap();
           }
           let mut got = Vec::new();
           for _ in 0..n {
